@@ -381,10 +381,49 @@ pub fn gen_c09(tier: &str, seed: u64) -> Vec<Vec<String>> {
 pub fn gen_c06(tier: &str, seed: u64) -> Vec<Vec<String>> {
     let mut v = gen_with(Opts { prop: "C06", size: true, age: true, force_rot: true, restarts: 4, cleanup: false, faults: false, ext: false, modes: false, max_ops: 40, namings: ALL, foreign: false, exist: false, bg: 0 }, tier, seed, 500, 6000);
     v.extend(gen_c06_across_month_end(tier, seed));
+    v.extend(gen_c06_same_second_runs(tier, seed));
     // … and with the cleanup strategies (incl. compression): what a restart finds may be only
     // compressed files, gaps in the numbering, restart siblings whose low end is gone
     v.extend(gen_with(Opts { prop: "C06", size: true, age: true, force_rot: true, restarts: 4, cleanup: true, faults: false, ext: false, modes: false, max_ops: 40, namings: ALL, foreign: false, exist: false, bg: 0 }, tier, seed ^ 0xC6C, 200, 3000).into_iter().map(|mut c| { c[0] = c[0].replacen("C06 ", "C06 c", 1); c }));
     v
+}
+
+/// C06: several short runs that all start within one second (timestamp namings: every start
+/// meets files with the very stamp it would choose), with and without cleanup/compression at
+/// start-up; no append for TimestampsDirect (known finding), free choice otherwise
+fn gen_c06_same_second_runs(tier: &str, seed: u64) -> Vec<Vec<String>> {
+    let mut root = Rng::new(seed ^ 0xC065);
+    let mut cases = Vec::new();
+    for k in 0..n_cases(tier, 60, 1500) {
+        let mut r = root.fork();
+        let naming = *r.pick(&["tsd", "tsd", "ts", "num", "numd"]);
+        let (spec, has_suffix) = gen_spec(&mut r, naming);
+        let spec = spec.rsplitn(2, ' ').nth(1).map(|s| format!("{s} 0")).unwrap();
+        let cleanup = if has_suffix { *r.pick(&["never", "0,2", "0,5", "1,1", "2,0", "1,0"]) } else { *r.pick(&["never", "2,0", "1,0"]) };
+        let rot = Some(format!("{};_;{naming};{cleanup}", r.pick(&[0u64, 5, 40])));
+        let mut c = vec![format!("CASE flw C06 s{k}"), spec];
+        c.push(format!("CFG {}", cfg_line(&rot, false, None, false, has_suffix)));
+        let now = pack(*r.pick(&[1_709_251_140i64, 1_718_447_390, 1_735_689_590]) + r.below(5) as i64);
+        let mut seq = 0u64;
+        for run in 0..r.range(3, 7) {
+            if run > 0 {
+                c.push("SHUT".into());
+                c.push("READ".into());
+                c.push(format!("RESTART {}", cfg_line(&rot, naming != "tsd" && r.chance(1, 3), None, false, has_suffix)));
+            }
+            for _ in 0..r.range(1, 3) {
+                c.push(format!("W {} {now} -", hex(&record(seq, r.range(2, 12)))));
+                seq += 1;
+            }
+        }
+        c.push("SHUT".into());
+        c.push("READ".into());
+        c.push("PARTS".into());
+        c.push("SNAP".into());
+        c.push("END".into());
+        cases.push(c);
+    }
+    cases
 }
 
 /// C06, timestamp namings with every format incl. the day-first one: a run that starts at the
